@@ -100,7 +100,7 @@ def received_cfg(v, gv):
             return ['obj', 'LabObjVar', {'a': received_cfg(kw['a'], gv), 'options': received_cfg({k: x for k, x in kw.items() if k not in ('a', 'shape')}, gv),
                                          'shape': received_cfg(list(kw.get('shape', (4, 3))), gv)}]
         if name == 'LabChainObj':
-            return ['obj', 'LabChainObj', {'a': received_cfg(kw['a'], gv), 'inited': True, 'saw_tasks': True}]
+            return ['obj', 'LabChainObj', {'a': received_cfg(kw['a'], gv), 'inited': True, 'saw_tasks': True, 'chain_usable_now': True}]
         return ['obj', name, {'x': received_cfg(kw['x'], gv)}]
     if isinstance(v, tuple) and v and v[0] == 'path':
         return ['p', subst_text(v[1], gv)] if v[1] is not None else ['N']
